@@ -46,6 +46,8 @@ def plan(tier, seed):
         specs.append({"stratum": "exhaustive-scalar-table", "exhaustive": True, "k": k, "of": nsh, "clean": True, "shrink": False,
                       "cli_every": 3 if q else 1})
     specs.append({"stratum": "xml-csv", "n": 300 if q else 6000, "k": 0, "clean": True})
+    for k in range(2 if q else 4):
+        specs.append({"stratum": "data-files", "n": 250 if q else 4000, "k": k, "clean": True})
     for k in range(2 if q else 8):
         specs.append({"stratum": "subprocess", "n": 16 if q else 64, "k": k, "clean": True, "shard_timeout": 1200, "case_timeout": 60})
     return specs
@@ -162,6 +164,26 @@ def gen_cases(spec, ctx):
             for ds in gen.DS:
                 yield {"family": "json", "a": a, "b": b, "ds": ds, "le": r.choice(gen.LE), "cli": True, "what": what}
         return
+    if st == "data-files":
+        # the same questions asked of documents that reach the engine through the real JSON / JSON5 / YAML / pickle loaders, in
+        # the dialects formats.write() produces (YAML multi-document streams, anchors, explicit scalar styles, JSON5 syntax ...)
+        for _ in range(spec["n"]):
+            c = families.gen_case(r, "file")
+            x = r.random()
+            c["what"] = "file:related"
+            if x < 0.25:
+                c["b"] = gen.permute_keys(r, copy.deepcopy(c["a"]))
+                c["what"] = "file:equal-permuted"
+            elif x < 0.6:
+                res = one_atom(r, c["a"])
+                if res is None or not isinstance(res[0], (dict, list)) or not res[0]:
+                    continue
+                c["b"], c["what"] = res[0], "file:" + res[1]
+            if not (isinstance(c["a"], (dict, list)) and c["a"] and isinstance(c["b"], (dict, list)) and c["b"]):
+                continue
+            c["cli"] = True
+            yield c
+        return
     if st == "xml-csv":
         for _ in range(spec["n"]):
             fam = r.choice(["xml", "csv"])
@@ -176,7 +198,7 @@ def gen_cases(spec, ctx):
 def expected_equal(case):
     fam = case["family"]
     a, b = case["a"], case["b"]
-    if fam == "json":
+    if fam in ("json", "file"):
         if has_int_float_twin(a, b):
             return None
         return typed_eq(a, b)
@@ -198,6 +220,10 @@ def write_files(case):
     fam = case["family"]
     if fam == "json":
         return (families.tmpfile(json.dumps(case["a"]).encode(), ".json"), families.tmpfile(json.dumps(case["b"]).encode(), ".json"))
+    if fam == "file":
+        from gv import formats
+        return (families.tmpfile(formats.write(case["ta"], case["a"]), formats.EXT[case["ta"]]),
+                families.tmpfile(formats.write(case["tb"], case["b"]), formats.EXT[case["tb"]]))
     if fam == "xml":
         return (families.tmpfile(families.xml_text(case["a"]).encode(), ".xml"), families.tmpfile(families.xml_text(case["b"]).encode(), ".xml"))
     if fam == "csv":
